@@ -25,19 +25,18 @@ func genTreeCase(t *rapid.T) V {
 func GenC01(t *rapid.T) *C01Case { return &C01Case{Root: genTreeCase(t)} }
 
 // parseRoot parses text with the parser matching the root kind.
+// The call runs under the termination watchdog of C04 so that a parser that
+// stops advancing is reported as a failure instead of wedging the shard.
 func parseRoot(kind Kind, text string) (any, error) {
+	call := callParseObject(text)
 	if kind == KList {
-		l, err := at.ParseList(text)
-		if l == nil {
-			return nil, err
-		}
-		return l, err
+		call = callParseList(text)
 	}
-	o, err := at.ParseObject(text)
-	if o == nil {
-		return nil, err
+	o, gerr := guarded("parser", call)
+	if gerr != nil {
+		return nil, gerr
 	}
-	return o, err
+	return o.c, o.err
 }
 
 func equalsBoth(a, b any) (ab, ba bool) {
